@@ -14,7 +14,8 @@
 EXTENDS Naturals, Sequences, FiniteSets, TLC, Json
 
 CONSTANTS
-    SenderOps,    \* [sender -> sequence of ops]; op \in {"send", "try", "block0", "blockInf", "weCb"}
+    SenderOps,    \* [sender -> sequence of ops]; op \in {"send", "try", "block0", "blockInf", "blockTokio", "weCb"}
+                  \*  blockTokio: the async tokio::send without timeout (same steps as blockInf)
                   \*  weCb: a raw when_empty with an observed callback (at most one per sender)
     FlusherOps,   \* [flusher -> "flush0" | "flushInf" | "flushTokio" | "cbPanic" | "cbPark"]
                   \*  flushTokio: the async tokio::flush (no timeout); cbPark: a raw when_flushed whose
@@ -154,7 +155,7 @@ Send(s) ==
 
 \* Sender::try_send, also the first and the repeated step of blocking_send (send_or_wait)
 TrySend(s) ==
-    /\ senderAlive /\ spc[s] = "op" /\ Op(s) \in {"try", "block0", "blockInf"}
+    /\ senderAlive /\ spc[s] = "op" /\ Op(s) \in {"try", "block0", "blockInf", "blockTokio"}
     /\ LET closed == ~isOpen
            ok == isOpen /\ Len(pending) < Cap
            first == sretry[s] = "no"      \* not a repeated attempt of a blocked sender
@@ -178,7 +179,7 @@ TrySend(s) ==
                   /\ spc' = [spc EXCEPT ![s] = "whenEmpty"]
                   /\ sidx' = sidx
           \* queue_full_blocked counts the first failed try of a blocking send
-          /\ mBlocked' = IF ~ok /\ first /\ Op(s) \in {"block0", "blockInf"}
+          /\ mBlocked' = IF ~ok /\ first /\ Op(s) \in {"block0", "blockInf", "blockTokio"}
                          THEN mBlocked + 1 ELSE mBlocked
           /\ Log(s, "TrySend", [snap |-> Snap(pending', pendFlush, pendTake, isOpen, isInBatch),
                                 ok |-> ok, closed |-> closed])
